@@ -141,7 +141,9 @@ prop("C13",
      assumptions=[])
 FILEREAD = ["stub: <File as Read>::read -> bytes of a static buffer with symbolic content and symbolic logical length (EOF past the end)",
             "stub: crc32fast::Hasher::internal_new_specialized -> None (portable table-driven CRC, real code)"]
-add("C13", H("log", "c13_p1a_parser_one_action", "quick", ["C13.P1"], "16 log bytes, logical length 0..=16, validate flag", "one action; unwind 12", 900, 8,
+add("C13", H("log", "c13_p1a_parser_one_action", "quick", ["C13.P1"], "16 log bytes, logical length 0..=16 (reader without checksum validation, as used when applying)", "one action; unwind 12", 900, 8,
+             unwind=12, stubs=ENV + FILEREAD, replay="solver-trace-only"))
+add("C13", H("log", "c13_p1a_parser_one_action_validating", "thorough", ["C13.P1"], "16 log bytes, logical length 0..=16 (validating reader: real CRC)", "one action; unwind 12", 2400, 16,
              unwind=12, stubs=ENV + FILEREAD, replay="solver-trace-only"))
 add("C13", H("log", "c13_p1b_crc_gate_n2", "quick", ["C13.P1"], "record id, table, index, 2 payload bytes, stored checksum", "record of 27 bytes; real CRC; unwind 40", 900, 8,
              unwind=40, stubs=ENV + FILEREAD, replay="solver-trace-only"))
@@ -227,8 +229,8 @@ prop("C10",
      bounds="node byte strings of length <= 40 with (length, child count) enumerated over 20 pairs incl. count 255; all other bytes symbolic",
      outside="recursive dereference walk over a stored tree (needs TreeReader / Arc<DbInner>), deferral (C11), root counts through the pipeline, multi-part nodes",
      assumptions=[])
-add("C10", H("column", "c10_n1_unpack_a", "quick", ["C10.N1"], "node bytes [u8;40]; (length, count) in 10 pairs", "unwind 42", 900, 6, unwind=42, stubs=FMT_STUB))
-add("C10", H("column", "c10_n1_unpack_b", "quick", ["C10.N1"], "node bytes; 10 more pairs incl. count 255/128", "unwind 42", 900, 6, unwind=42, stubs=FMT_STUB))
+for sfx, tier in (("a", "quick"), ("b", "quick"), ("c", "thorough"), ("d", "quick")):
+    add("C10", H("column", "c10_n1_unpack_" + sfx, tier, ["C10.N1"], "node bytes [u8;40]; (length, child count) in 5 pairs", "unwind 42", 1500, 16, unwind=42, stubs=FMT_STUB))
 
 # ======================================================================================== C08 (mapsub build)
 MAPSUB = ["model: std HashMap/HashSet in db.rs, log.rs, column.rs, options.rs replaced by a fixed-capacity association array (crate::verif_map, capacity 4; last write wins, "
@@ -265,9 +267,13 @@ add("C01", H("log", "c01_k3_end_read_retires_only_own_entries", "quick", ["C01.K
              variant="mapsub", unwind=40, stubs=ENV + MAPSUB, replay="solver-trace-only"))
 _ms("C01")
 PROPS["C01"]["functions"] += ["Log::end_read"]
-add("C10", H("log", "c10_m1_modified_masks_accumulate", "quick", ["C10.M1", "C09.M1"], "two (page, entry) modifications of ref-count and index pages, symbolic page numbers / entry numbers / content byte", "one record; unwind 66", 1800, 12,
-             variant="mapsub", unwind=66, stubs=ENV + MAPSUB, replay="solver-trace-only"))
+add("C10", H("log", "c10_m1_ref_count_masks_accumulate", "quick", ["C10.M1"], "two (page, entry) modifications of ref-count pages: page number, same/different page, entry numbers, content byte", "one record; unwind 10", 1800, 16,
+             variant="mapsub", unwind=10, stubs=ENV + MAPSUB, replay="solver-trace-only"))
 _ms("C10")
+add("C09", H("log", "c09_m1_index_masks_accumulate", "quick", ["C09.M1"], "two (page, entry) modifications of index pages", "one record; unwind 10", 1800, 16,
+             variant="mapsub", unwind=10, stubs=ENV + MAPSUB, replay="solver-trace-only"))
+_ms("C09")
+PROPS["C09"]["functions"] += ["LogWriter::insert_index", "<LogWriter as LogQuery>::with_index"]
 PROPS["C10"]["functions"] += ["LogWriter::{insert_ref_count, insert_index}", "<LogWriter as LogQuery>::ref_count"]
 
 # ======================================================================================== C04
@@ -314,3 +320,28 @@ for fn in ("c10_n2_claim_tree_256_children_rejected", "c10_n2_claim_tree_nested_
                  variant="mapsub", unwind=260, stubs=ENV + MAPSUB, replay="solver-trace-only"))
     _ms("C08")
 PROPS["C08"]["functions"] += ["HashColumn::claim_tree_values (rejected node claims no storage)"]
+
+add("C01", H("table", "c01_g1_value_table_log_index", "quick", ["C01.G1"], "two (column, tier) pairs, column count", "loop-free; all values", 300, 2))
+PROPS["C01"]["functions"] += ["table::TableId::{new, log_index, from_log_index, max_log_tables}"]
+add("C14", H("table", "c14_t0_init_free_stack_matches_disk_list", "quick", ["C14.T0"], "disk:[u8;192], filled, last_removed (free list of <= 3 slots)", "6 slots x 32 bytes; unwind 200", 1200, 8,
+             unwind=200, stubs=ENV + OVERLAY + TFILE, replay="playback-native-env"))
+PROPS["C14"]["functions"] += ["ValueTable::{init_table_data, claim_entries}"]
+add("C13", H("log", "c13_r1_clear_replay_logs_discards_everything", "quick", ["C13.R1"], "active reader present or not, 0..=2 queued replay files", "one call; unwind 8", 900, 6,
+             unwind=8, stubs=ENV + FEV, replay="solver-trace-only"))
+PROPS["C13"]["functions"] += ["Log::clear_replay_logs"]
+add("C07", H("db", "c07_k1_counted_dereference_leaves_overlay_alone", "quick", ["C07.K1"], "value byte, Dereference or Reference", "two queued commits on one key; unwind 34", 900, 6,
+             variant="mapsub", unwind=34, stubs=FMT_STUB + MAPSUB, replay="solver-trace-only"))
+_ms("C07")
+PROPS["C07"]["functions"] += ["IndexedChangeSet::{copy_to_overlay, clean_overlay} (ref-counted arms)"]
+
+add("C13", H("log", "c13_p2i_index_validate_b16", "quick", ["C13.P2"], "page number:u64, 8 mask bytes, available bytes 0..=0x400", "index size 16; unwind 66", 1200, 8, unwind=66, stubs=ENV + RDSTUB, replay="solver-trace-only"))
+add("C13", H("log", "c13_p2i_index_validate_b20", "thorough", ["C13.P2"], "as b16", "index size 20; unwind 66", 1200, 8, unwind=66, stubs=ENV + RDSTUB, replay="solver-trace-only"))
+add("C13", H("db", "c13_p3_enact_logs_validation_gate", "quick", ["C13.P3"], "20 log bytes, logical length 0..=20, last_enacted:u64", "struct-literal DbInner without columns; one enact_logs(true) call; unwind 40", 2400, 12,
+             unwind=40, stubs=ENV + FILEREAD + FEV, replay="solver-trace-only"))
+PROPS["C13"]["functions"] += ["IndexTable::{validate_plan, skip_plan}", "DbInner::enact_logs (validation mode)", "LogReader::reset", "Log::read_next"]
+PROPS["C13"]["bounds"] += "; value-table payloads: entry sizes 64 / 4096, all 2^16 size fields, any slot; index pages: any page number and mask; enact_logs(validation) over <= 20 arbitrary log bytes on a database without columns"
+
+for fn, tier in (("c12_o3b_db_clean_logs_q1", "quick"), ("c12_o3b_db_clean_logs_q2_race", "quick"), ("c12_o3b_db_clean_logs_q1_race", "thorough")):
+    add("C12", H("db", fn, tier, ["C12.O3"], "sync_data flag; 1-2 dirty logs; optionally a log becomes dirty while the tables are being flushed", "struct-literal DbInner with one miniature hash column (3 value tables); unwind 26", 1800, 10,
+                 unwind=26, stubs=ENV + FEV + TFILE + ["model: TableFile::flush may (nondeterministically) coincide with another worker appending a log file to the cleanup queue"], replay="solver-trace-only"))
+PROPS["C12"]["functions"] += ["DbInner::clean_logs", "Column::flush / HashColumn::flush"]
